@@ -440,6 +440,59 @@ func checkC09b(c *Ctx, ab, sp *packages.Package) {
 		}
 	}
 
+	// every rewritten call carries the parameter attributes (byval/sret) of the rewritten signature
+	if fd := findFunc(ab, "Transformer.transformCallInstr"); fd != nil {
+		var rsw *ast.SwitchStmt
+		ast.Inspect(fd.Body, func(n ast.Node) bool {
+			if s, ok := n.(*ast.SwitchStmt); ok && s.Tag != nil && strings.ReplaceAll(exprStr(s.Tag), " ", "") == "info.Return.Kind" {
+				rsw = s
+			}
+			return true
+		})
+		if rsw != nil {
+			for _, st := range rsw.Body.List {
+				cc := st.(*ast.CaseClause)
+				var names []string
+				for _, e := range cc.List {
+					names = append(names, exprStr(e))
+				}
+				if cc.List == nil {
+					names = []string{"default"}
+				}
+				// calls created in this arm and the variables they are bound to
+				created := map[string]bool{}
+				attributed := map[string]bool{}
+				for _, s2 := range cc.Body {
+					ast.Inspect(s2, func(n ast.Node) bool {
+						switch x := n.(type) {
+						case *ast.AssignStmt:
+							if len(x.Lhs) == 1 && len(x.Rhs) == 1 {
+								if call, ok := x.Rhs[0].(*ast.CallExpr); ok {
+									if f := calleeOf(info, call); f != nil && f.Name() == "CreateCall" {
+										created[exprStr(x.Lhs[0])] = true
+									}
+								}
+							}
+						case *ast.CallExpr:
+							if id, ok := x.Fun.(*ast.Ident); ok && id.Name == "updateCallAttr" && len(x.Args) == 1 {
+								attributed[exprStr(x.Args[0])] = true
+							}
+						}
+						return true
+					})
+				}
+				okAll := len(created) > 0
+				for v := range created {
+					if !attributed[v] {
+						okAll = false
+					}
+				}
+				c.Check(okAll, "R09.4", "cabi.Transformer.transformCallInstr "+strings.Join(names, ",")+" call carries the signature attributes", cc.Pos(), "updateCallAttr on the created call",
+					"the rewritten call of this arm is not given the byval/sret attributes of the rewritten signature: on an indirect call LLVM lowers the arguments from the call-site attributes only, so a by-value struct argument is passed as a plain pointer")
+			}
+		}
+	}
+
 	// ---- R09.5 architecture coverage
 	nt := findFunc(ab, "NewTransformer")
 	if nt == nil {
@@ -617,4 +670,62 @@ func init() {
 	addMutant(Mutant{Prop: "C09", Name: "arch-case-renamed", File: "internal/cabi/cabi.go",
 		Old: "\tcase \"riscv64\":\n\t\ttr.sys = &TypeInfoRiscv64{tr, targetAbi}", New: "\tcase \"riscv\":\n\t\ttr.sys = &TypeInfoRiscv64{tr, targetAbi}",
 		Expect: "R09.5 cabi.NewTransformer arch \"riscv64\""})
+}
+
+// checkCToGoCopies (R09.7): a Go string made from C memory must own its bytes (C may rewrite or free the buffer).
+func checkCToGoCopies(c *Ctx, rp *packages.Package) {
+	c.Rule("R09.7", "Go strings created from C memory copy the bytes: the result is produced by a copying conversion or allocation, never by a view (unsafe.String / header over the C pointer)", 1)
+	info := rp.TypesInfo
+	for _, name := range []string{"GoStringN", "StringFromCStr"} {
+		fd := findFunc(rp, name)
+		if fd == nil {
+			continue
+		}
+		c.nfuncs++
+		var rets []*ast.ReturnStmt
+		ast.Inspect(fd.Body, func(n ast.Node) bool {
+			if r, ok := n.(*ast.ReturnStmt); ok {
+				rets = append(rets, r)
+			}
+			return true
+		})
+		bad := ""
+		copies := 0
+		for _, r := range rets {
+			if len(r.Results) != 1 {
+				continue
+			}
+			e := ast.Unparen(r.Results[0])
+			if v, isC := constString(info, e); isC && v == "" {
+				continue
+			}
+			call, isCall := e.(*ast.CallExpr)
+			if !isCall {
+				bad = "returns " + exprStr(e)
+				continue
+			}
+			// conversion string([]byte) copies; StringFrom allocates and copies
+			if tv, ok := info.Types[call.Fun]; ok && tv.IsType() {
+				if b, ok := tv.Type.Underlying().(*types.Basic); ok && b.Kind() == types.String && len(call.Args) == 1 {
+					if _, isSlice := info.TypeOf(call.Args[0]).Underlying().(*types.Slice); isSlice {
+						copies++
+						continue
+					}
+				}
+			}
+			if f := calleeOf(info, call); f != nil && (f.Name() == "StringFrom" || f.Name() == "GoStringN") {
+				copies++
+				continue
+			}
+			bad = "returns " + exprStr(e)
+		}
+		c.Check(bad == "" && copies > 0, "R09.7", "runtime."+name+" copies the C bytes", fd.Pos(), "string([]byte) conversion or StringFrom", "the result aliases C memory ("+bad+"): after C rewrites, reuses or frees the buffer the Go string changes or dangles")
+	}
+}
+
+func init() {
+	addMutant(Mutant{Prop: "C09", Name: "gostringn-aliases-c-memory", File: "runtime/internal/runtime/z_cgo.go",
+		Old: "\treturn string((*[1 << 30]byte)(unsafe.Pointer(p))[:n:n])", New: "\treturn unsafe.String((*byte)(unsafe.Pointer(p)), n)", Expect: "R09.7 runtime.GoStringN"})
+	addMutant(Mutant{Prop: "C09", Name: "callsite-attrs-dropped-for-small-results", File: "internal/cabi/cabi.go",
+		Old: "\t\tret := llvm.CreateCall(b, nft, nfn, nparams)\n\t\tupdateCallAttr(ret)\n\t\tptr := createAlloca(nft.ReturnType())", New: "\t\tret := llvm.CreateCall(b, nft, nfn, nparams)\n\t\tptr := createAlloca(nft.ReturnType())", Expect: "R09.4 cabi.Transformer.transformCallInstr AttrWidthType,AttrWidthType2 call carries"})
 }
